@@ -59,6 +59,20 @@ def matmul(*operands):
         return derived_observable(multi_dot, operands, array_mode=True)
 
 
+def _assert_single_chain(operands):
+    """The jackknife based routines combine the samples index by index, all Obs have to be defined
+    on the same single replicum and on the same configurations."""
+    ref = None
+    for op in operands:
+        for entry in np.asarray(op).ravel():
+            for o in ([entry.real, entry.imag] if isinstance(entry, CObs) else [entry]):
+                if isinstance(o, Obs):
+                    if ref is None:
+                        ref = o
+                    elif o.names != ref.names or any(list(o.idl[name]) != list(ref.idl[name]) for name in o.idl):
+                        raise ValueError("Jackknife based routines require all Obs to be defined on the same replicum and configurations.")
+
+
 def jack_matmul(*operands):
     """Matrix multiply both operands making use of the jackknife approximation.
 
@@ -95,6 +109,8 @@ def jack_matmul(*operands):
             base_matrix[index] = CObs(import_jackknife(entry.real, name, [idl]),
                                       import_jackknife(entry.imag, name, [idl]))
         return base_matrix
+
+    _assert_single_chain(operands)
 
     if any(isinstance(o.flat[0], CObs) for o in operands):
         name = operands[0].flat[0].real.names[0]
@@ -158,6 +174,8 @@ def einsum(subscripts, *operands):
             base_matrix[index] = CObs(import_jackknife(matrix[index].real, name, [idl]),
                                       import_jackknife(matrix[index].imag, name, [idl]))
         return base_matrix
+
+    _assert_single_chain(operands)
 
     for op in operands:
         if isinstance(op.flat[0], CObs):
